@@ -258,21 +258,19 @@ theorem json_equiv (s : Settings) (prev : Conf) (rx : String → String → Bool
   cases s.val "AllEnable" <;> cases s.val w.2.1 <;> simp
 #print axioms json_equiv
 
-/-! ### the 'special check' gate (known finding C17-K1) -/
+/-! ### the 'special check' gate (former finding C17-K1) -/
 
-/-- numeric values of the types listed in IsSpecialCheck -/
+/-- numeric values of the types listed in IsSpecialCheck (regenerated from the Go source): the six types the
+    cross-file pass produces, goto-label included since the repair -/
 theorem special_types :
     Gen.specialCheckTypes.map (fun n => (Gen.errTypes.find? (·.1 == n)).map (·.2)) =
-      [some 2, some 3, some 10, some 11, some 12] := by decide
+      ConfSpec.specialTypes.map some := by decide
 #print axioms special_types
 
-/- the configuration class of C17-K1 (`ConfSpec.specialOff`): master on, switches of types 2, 3, 10, 11, 12 all off -/
-
-/-- In that class the cross-file pass is not run at all (`IsSpecialCheck` is false), so diagnostics
-    produced only there (type 9, goto label) disappear although their own switch is on: the model
-    deviates from "changes nothing else" exactly on this class. -/
+/-- the cross-file pass is skipped (`IsSpecialCheck` false) exactly when the master switch is off or the switches
+    of all six cross-file types are off -/
 theorem special_gate (s : Settings) (prev : Conf) :
-    isSpecialCheck (fromFlags prev (flagsOf s) s.ignoreErr) [2, 3, 10, 11, 12] =
+    isSpecialCheck (fromFlags prev (flagsOf s) s.ignoreErr) ConfSpec.specialTypes =
       (s.val "AllEnable" && !specialOff s) := by
   obtain ⟨_, hlen, h0, hsw, _⟩ := flag_table
   have hflen : (flagsOf s).length = 26 := by simp [flagsOf, hlen]
@@ -292,13 +290,14 @@ theorem special_gate (s : Settings) (prev : Conf) :
       have := (hsw _ hc).1
       simp only at this
       simp [flagsOf, List.getD, this]
-    unfold isSpecialCheck specialOff
+    unfold isSpecialCheck specialOff ConfSpec.specialTypes
     simp only [hshow, hmaster, List.any_cons, List.any_nil, Bool.or_false, Bool.true_and]
     rw [g 2 "CheckNoDefine" ⟨"CheckErrorNoDefine", by decide⟩, g 3 "CheckAfterDefine" ⟨"CheckErrorCycleDefine", by decide⟩,
+      g 9 "CheckGotoLable" ⟨"CheckErrorGotoLabel", by decide⟩,
       g 10 "CheckFuncParam" ⟨"CheckErrorCallParam", by decide⟩, g 11 "CheckImportModuleVar" ⟨"CheckErrorImportVar", by decide⟩,
       g 12 "CheckIfNotVar" ⟨"CheckErrorNotIfVar", by decide⟩]
-    cases s.val "CheckNoDefine" <;> cases s.val "CheckAfterDefine" <;> cases s.val "CheckFuncParam" <;>
-      cases s.val "CheckImportModuleVar" <;> cases s.val "CheckIfNotVar" <;> rfl
+    cases s.val "CheckNoDefine" <;> cases s.val "CheckAfterDefine" <;> cases s.val "CheckGotoLable" <;>
+      cases s.val "CheckFuncParam" <;> cases s.val "CheckImportModuleVar" <;> cases s.val "CheckIfNotVar" <;> rfl
   · have hmf : s.val "AllEnable" = false := by simpa using hmaster
     have hshow : (fromFlags prev (flagsOf s) s.ignoreErr).showWarn = false := by
       cases hf : flagsOf s with
@@ -309,6 +308,23 @@ theorem special_gate (s : Settings) (prev : Conf) :
         simp [fromFlags, this]
     simp [isSpecialCheck, hshow, hmf]
 #print axioms special_gate
+
+/-- skipping the pass loses nothing: whenever the gate is closed, no diagnostic of a cross-file type is to be shown
+    for any file (the documented filter `shown` is false for all six types) — with type 9 missing from the list
+    this failed for goto-label diagnostics (finding K1) -/
+theorem special_gate_harmless (s : Settings) (prev : Conf) (rx : String → String → Bool) (file : String)
+    (h : isSpecialCheck (fromFlags prev (flagsOf s) s.ignoreErr) ConfSpec.specialTypes = false) :
+    ∀ ty ∈ ConfSpec.specialTypes, shown s rx file ty = false := by
+  rw [special_gate] at h
+  intro ty hty
+  simp only [ConfSpec.specialTypes, List.mem_cons, List.mem_nil_iff, or_false] at hty
+  unfold specialOff at h
+  rcases hty with rfl | rfl | rfl | rfl | rfl | rfl <;>
+    (simp only [shown, switchOf, List.find?]; simp; revert h;
+     cases s.val "AllEnable" <;> cases s.val "CheckNoDefine" <;> cases s.val "CheckAfterDefine" <;>
+       cases s.val "CheckGotoLable" <;> cases s.val "CheckFuncParam" <;> cases s.val "CheckImportModuleVar" <;>
+       cases s.val "CheckIfNotVar" <;> simp)
+#print axioms special_gate_harmless
 
 /-! ### malformed settings (shared with C01): user-supplied patterns reach regexp.MustCompile -/
 
